@@ -20,7 +20,9 @@ theorem run_perm (ev : Bindings V → E → Outcome Bool) (hev : EvRespects ev)
     (hP : P.Perm P') (hF : F.Perm F') (hn : F.Nodup)
     (h : run ev mf P mi F = (W, none)) :
     ∃ W', run ev mf P' mi F' = (W', none) ∧ W.Perm W' := by
-  sorry
+  obtain ⟨W', hrun, hN', hmem⟩ := run_congr ev hev mf (fun r => hP.mem_iff) mi F F' W hn
+    (hF.nodup_iff.mp hn) (fun f => hF.mem_iff) h
+  exact ⟨W', hrun, (List.perm_ext_iff_of_nodup (run_nodup ev mf P mi F W hn h) hN').mpr hmem⟩
 
 /-- Querying a rule over a permuted fact list returns the same instances, as a set,
 and errs on one presentation iff it errs on the other. -/
@@ -28,7 +30,26 @@ theorem applyRule_perm (ev : Bindings V → E → Outcome Bool) (hev : EvRespect
     (r : Rule V E) (S S' out : List (Fact V)) (hS : S.Perm S')
     (h : applyRule ev r S [] = (out, none)) :
     ∃ out', applyRule ev r S' [] = (out', none) ∧ out.Perm out' := by
-  sorry
+  have hmemS : ∀ f, f ∈ S ↔ f ∈ S' := fun f => hS.mem_iff
+  have hok : (applyRule ev r S' []).2 = none :=
+    (applyRule_ok_congr ev r hmemS [] []).mp (by rw [h])
+  have h' := eq_pair_none _ hok
+  have hnd : out.Nodup := by
+    have := applyCombos_nodup ev r (solve S r.body []) [] List.nodup_nil
+    unfold applyRule at h
+    rw [h] at this
+    exact this
+  have hnd' : (applyRule ev r S' []).1.Nodup :=
+    applyCombos_nodup ev r (solve S' r.body []) [] List.nodup_nil
+  refine ⟨_, h', (List.perm_ext_iff_of_nodup hnd hnd').mpr fun f => ?_⟩
+  rw [applyRule_spec ev hev r S [] out h f, applyRule_spec ev hev r S' [] _ h' f]
+  constructor
+  · rintro (h0 | ⟨σ, hs, hh⟩)
+    · exact Or.inl h0
+    · exact Or.inr ⟨σ, (Sat.congr hmemS σ).mp hs, hh⟩
+  · rintro (h0 | ⟨σ, hs, hh⟩)
+    · exact Or.inl h0
+    · exact Or.inr ⟨σ, (Sat.congr hmemS σ).mpr hs, hh⟩
 
 /-- Position-wise relation between two lists of the same length (core has no `Forall₂`). -/
 inductive Forall2 {α β : Type} (R : α → β → Prop) : List α → List β → Prop
@@ -61,7 +82,19 @@ theorem authorize_perm (cfg : EvalCfg) (tok tok' : Token) (s s' : AuthState)
     (hf : WithinFragment cfg tok s) (hn : s.world.facts.Nodup)
     (hp : SamePresentation tok tok' s s') :
     (authorize cfg tok s).2 = (authorize cfg tok' s').2 := by
-  sorry
+  have conv : ∀ {α β : Type} {R R' : α → β → Prop} {l : List α} {l' : List β},
+      Forall2 R l l' → (∀ a b, R a b → R' a b) → Pointwise R' l l' := by
+    intro α β R R' l l' h hi
+    induction h with
+    | nil => exact Pointwise.nil
+    | cons hab _ ih => exact Pointwise.cons (hi _ _ hab) ih
+  have hcq : ∀ c c', CheckPerm c c' → SameQueries c c' := fun c c' h q => h.mem_iff
+  have hblk : ∀ b b', BlockPerm b b' → SameBlock b b' := fun b b' h =>
+    ⟨fun f => h.1.mem_iff, fun r => h.2.1.mem_iff, conv h.2.2 hcq⟩
+  exact authorize_same cfg tok tok' s s' hf hn (hp.facts.nodup_iff.mp hn)
+    (hblk _ _ hp.authority) (conv hp.blocks hblk) (fun f => hp.facts.mem_iff)
+    (fun r => hp.rules.mem_iff) (conv hp.checks hcq)
+    (conv hp.policies fun p p' h => ⟨h.1, fun q => h.2.mem_iff⟩) hp.limits
 
 /-- Verdict class: failed-check identifiers are positional, so under a permutation
 of the checks only their number is comparable. -/
@@ -85,22 +118,38 @@ theorem authorize_perm_checks (cfg : EvalCfg) (A A' : Block) (bs bs' : List Bloc
     (hbs : Forall2 (fun b b' => b.facts = b'.facts ∧ b.rules = b'.rules ∧ b.checks.Perm b'.checks) bs bs')
     (hs : s' = { s with checks := s'.checks }) (hc : s.checks.Perm s'.checks) :
     cls (authorize cfg ⟨A, bs⟩ s).2 = cls (authorize cfg ⟨A', bs'⟩ s').2 := by
-  sorry
+  -- (the fragment hypothesis `hf` is not needed: both sides perform the same runs)
+  have hf' := hf
+  clear hf' hf
+  have hbs' : Pointwise ChecksPermuted bs bs' := by
+    induction hbs with
+    | nil => exact Pointwise.nil
+    | cons hab _ ih => exact Pointwise.cons hab ih
+  have key := authorize_checks_sameShape cfg A A' bs bs' s s'.checks hA hbs' hc
+  rw [← hs] at key
+  rcases key with ⟨e, e', h1, h2⟩ | ⟨ids, ids', h1, h2, h3⟩ | ⟨o, h1, h2⟩
+  · rw [h1, h2]; rfl
+  · rw [h1, h2]; simp only [cls, h3]
+  · rw [h1, h2]
 
 /-- **Duplicating a fact** is a no-op. -/
 theorem addFact_idempotent (s : AuthState) (f : DFact) : addFact (addFact s f) f = addFact s f := by
-  sorry
+  have hmem : f ∈ insertFact s.world.facts f := (mem_insertFact _ _ _).mpr (Or.inr rfl)
+  simp only [addFact, insertFact_of_mem _ _ hmem]
 
 /-- Adding a fact that is already present (anywhere in the world) changes nothing. -/
 theorem addFact_present (s : AuthState) (f : DFact) (h : f ∈ s.world.facts) : addFact s f = s := by
-  sorry
+  simp only [addFact, insertFact_of_mem _ _ h]
 
 /-- **Calling Authorize a second time** on the same authorizer gives the same verdict
 (inside the fragment, for a duplicate-free authorizer world). -/
 theorem authorize_twice (cfg : EvalCfg) (tok : Token) (s : AuthState)
     (hf : WithinFragment cfg tok s) (hn : s.world.facts.Nodup) :
     (authorize cfg tok (authorize cfg tok s).1).2 = (authorize cfg tok s).2 := by
-  sorry
+  -- (`hn` is not needed: only the success of the authority-level run is used)
+  have _ := hn
+  obtain ⟨w, hw⟩ := hf.authorityRun
+  exact authorize_twice_run cfg tok s w hw
 
 /-- The verdict depends on the policies as an ordered list: swapping two policies can
 change it (so order-independence is rightly *not* claimed for policies). -/
@@ -108,7 +157,16 @@ theorem policy_order_matters :
     ∃ (cfg : EvalCfg) (tok : Token) (s s' : AuthState),
       s.policies.Perm s'.policies ∧ s' = { s with policies := s'.policies } ∧
       (authorize cfg tok s).2 ≠ (authorize cfg tok s').2 := by
-  sorry
+  let q : DRule := { head := { name := [2], terms := [] },
+                     body := [{ name := [1], terms := [] }], exprs := [] }
+  let pa : Policy := { kind := .allow, queries := [q] }
+  let pd : Policy := { kind := .deny, queries := [q] }
+  let s0 : AuthState := AuthState.fresh { maxFacts := 1000, maxIter := 100 }
+  refine ⟨{ rx := fun _ _ => none },
+    { authority := { facts := [{ name := [1], args := [] }], rules := [], checks := [] }, blocks := [] },
+    { s0 with policies := [pa, pd] }, { s0 with policies := [pd, pa] },
+    List.Perm.swap _ _ _, rfl, ?_⟩
+  decide
 
 /-! Non-vacuity: a program and a non-trivial permutation of it, inside the fragment. -/
 
